@@ -526,3 +526,26 @@ def lost_updates(prog, owner):
                         before_store = (cb != b and plain._reaches(cb, b))
                         if after_read and before_store and rb != b:
                             yield f, fld, cb, span
+
+
+def import_rules(res, prog, ctx, rule, pack, rules, what, floor, key_filter=None):
+    """decide `rule` of this pack by the structural rules `rules` of a sibling pack (a violation there is a violation here,
+    keyed by the sibling's key); a sibling that cannot run leaves the obligation undecided"""
+    import importlib
+    try:
+        r = importlib.import_module("analyzer.rules." + pack).run(prog, dict(ctx))
+    except Exception as ex:
+        res.extra.setdefault("undecided_items", []).append("%s could not run %s: %r" % (rule, pack, ex))
+        res.obligations += 1
+        res.undecided += 1
+        return
+    n = 0
+    for rid in rules:
+        n += r.rules.get(rid, {}).get("instances", 0)
+        bad = [v for v in r.violations if v.rule == rid and "anchor-lost" not in v.key and (key_filter is None or key_filter(v.key))]
+        for v in bad:
+            res.violate(rule, "%s|%s" % (rule, v.key), "%s: %s" % (what, v.message), getattr(v, "fn", None), getattr(v, "span", None))
+        res.obligations += 1
+        if not bad:
+            res.discharged += 1
+    res.rule(rule, n, floor, "%s (imported from %s: %s)" % (what, pack, ", ".join(rules)))
